@@ -4,13 +4,15 @@ import Aplang.Proofs.FsLemmas
 
 The model of the file system (`Aplang.Fs`) is an association list from component paths to nodes. A
 path string names a component path through `Fs.resolve`, which walks the components as the Linux
-kernel does: `..` goes to the parent and needs everything before it to be an existing directory.
+kernel does: `..` goes to the parent and needs everything before it to be an existing directory. A
+path string with a trailing `/` or a last component `.` or `..` can only name a directory (`Fs.dirOnly`).
 
 The theorems below say that each operation reads and changes exactly the entry the path string
 resolves to (frame theorems), when it succeeds, what it leaves behind, that a failing operation leaves
 the tree as it was (with two exceptions: `DIRECTORY_REMOVE_ALL(".")`, which the Rust `remove_dir_all`
-empties before it fails, and `DIRECTORY_CREATE_ALL` on a path with `..`, which keeps what it made before
-it met a file), and that every FS native reports failure through its return value.
+empties before it fails — `DIRECTORY_REMOVE_ALL("d/.")` likewise empties `d` and then fails —, and
+`DIRECTORY_CREATE_ALL` on a path with `..` or a final `.`, which keeps what it made before it failed), and
+that every FS native reports failure through its return value.
 
 `DIRECTORY_CREATE_ALL` and `DIRECTORY_REMOVE_ALL` are the two operations that are more than one system
 call, so that the path string is looked at in a tree that changes under it: the first makes the
@@ -20,8 +22,9 @@ is below the directory (`dirRemoveAll_at_resolved`).
 Layout: every operation is `match resolve t s with | none => failure | some p => opAt t s p`. The
 theorems are proved for `opAt` at an arbitrary path `p` (section "at a resolved path"), and then stated
 for the operations on path strings twice: in general (about the path `resolve` gives; names ending in
-`_resolve` or statements without any hypothesis on the string), and — under `noDotDot s` — in the form
-they had before `..` was in the model, about `components s`.
+`_resolve` or statements without any hypothesis on the string), and — under `noDotDot s`, or `plain s`
+(no `..` and no final `.`) where the spelling of the end of the string matters — in the form they had
+before `..` and the final `.` were in the model, about `components s` and `trailingSlash s`.
 Section "`..`" has the theorems special to `..`.
 
 The tie between `Aplang.Fs` and the real `std::fs` is checked by differential runs, not here.
@@ -174,7 +177,7 @@ theorem fileCreateAt_only_if_absent (t : Tree) (s : Str) (p : Path) (h : (fileCr
 
 theorem dirCreateAt_success_iff (t : Tree) (s : Str) (p : Path) :
     (dirCreateAt t s p).2 = true ↔
-      s ≠ [] ∧ endsDotDot s = false ∧ p ≠ [] ∧ find? t p = none ∧ isDir t (parent p) = true := by
+      s ≠ [] ∧ lastDots s = false ∧ p ≠ [] ∧ find? t p = none ∧ isDir t (parent p) = true := by
   unfold dirCreateAt
   split
   · next h =>
@@ -192,7 +195,7 @@ theorem dirCreateAt_only_if_absent (t : Tree) (s : Str) (p : Path) (h : (dirCrea
     find? t p = none ∧ find? (dirCreateAt t s p).1 p = some .dir := by
   have h' := (dirCreateAt_success_iff t s p).1 h
   refine ⟨h'.2.2.2.1, ?_⟩
-  have hcond : (s == [] || endsDotDot s || p == [] || pathExists t p || !isDir t (parent p)) = false := by
+  have hcond : (s == [] || lastDots s || p == [] || pathExists t p || !isDir t (parent p)) = false := by
     simp [h'.1, h'.2.1, h'.2.2.1, h'.2.2.2.2, pathExists, h'.2.2.2.1]
   unfold dirCreateAt
   simp only [hcond, Bool.false_eq_true, ↓reduceIte]
@@ -319,7 +322,7 @@ theorem fileRemoveAt_then_absent (t : Tree) (s : Str) (p : Path) (h : (fileRemov
 
 theorem dirRemoveAt_success_iff (t : Tree) (s : Str) (p : Path) :
     (dirRemoveAt t s p).2 = true ↔
-      s ≠ [] ∧ endsDotDot s = false ∧ p ≠ [] ∧ find? t p = some .dir ∧ children t p = [] := by
+      s ≠ [] ∧ lastDots s = false ∧ p ≠ [] ∧ find? t p = some .dir ∧ children t p = [] := by
   unfold dirRemoveAt
   split
   · next h =>
@@ -342,7 +345,7 @@ theorem dirRemoveAt_then_absent (t : Tree) (s : Str) (p : Path) (h : (dirRemoveA
 theorem dirRemoveAllAt_success_iff (t : Tree) (s : Str) (p : Path) :
     (dirRemoveAllAt t s p).2 = true ↔
       s ≠ [] ∧ find? t p = some .dir ∧
-        (resolve (eraseBelow t p) s = none ∨ (p ≠ [] ∧ endsDotDot s = false)) := by
+        (resolve (eraseBelow t p) s = none ∨ (p ≠ [] ∧ lastDots s = false)) := by
   unfold dirRemoveAllAt
   split
   · next h =>
@@ -359,7 +362,7 @@ theorem dirRemoveAllAt_success_iff (t : Tree) (s : Str) (p : Path) :
     | none => simp [h.1, hd]
     | some p' =>
       simp only [h.1, hd, ne_eq, not_false_eq_true, reduceCtorEq, false_or, true_and]
-      by_cases hc : (p == [] || endsDotDot s) = true
+      by_cases hc : (p == [] || lastDots s) = true
       · simp only [hc, ↓reduceIte, Bool.false_eq_true, false_iff]
         simp only [Bool.or_eq_true, beq_iff_eq] at hc
         rintro ⟨h1, h2⟩
@@ -597,78 +600,102 @@ theorem dirRemove_frame (t : Tree) (s : Str) (q : Path) (hnd : noDotDot s = true
 
 /-! ### `DIRECTORY_CREATE_ALL` -/
 
-/-- the directories `DIRECTORY_CREATE_ALL` makes where nothing is: all it visits when it succeeds; when
-it meets a file, those visited before the file (its ancestors left out, see `Fs.dirCreateAll`) -/
+/-- the last directory the path string names, which `DIRECTORY_CREATE_ALL("…/x/.")` wants to be there already -/
+def lastVisit (s : Str) : Path := (mkdirVisits [] (components s)).getLast?.getD []
+
+/-- the directories `DIRECTORY_CREATE_ALL` makes where nothing is: all of `dirCreateAllVisits` when none of
+them is a file; when it meets a file, those visited before the file (its ancestors left out, see
+`Fs.mkdirRun`) -/
 def dirCreateAllMakes (t : Tree) (s : Str) : List Path :=
-  match (mkdirVisits [] (components s)).find? (fun q => isFile t q) with
-  | none => mkdirVisits [] (components s)
-  | some f =>
-    ((mkdirVisits [] (components s)).takeWhile fun q => !isFile t q).filter fun q => !(q.isPrefixOf f)
+  match (dirCreateAllVisits s).find? (fun q => isFile t q) with
+  | none => dirCreateAllVisits s
+  | some f => ((dirCreateAllVisits s).takeWhile fun q => !isFile t q).filter fun q => !(q.isPrefixOf f)
 
-theorem dirCreateAll_fst (t : Tree) (s : Str) :
-    (dirCreateAll t s).1 = (dirCreateAllMakes t s).foldl mkdirStep t := by
-  unfold dirCreateAll dirCreateAllMakes
-  simp only []
-  cases List.find? (fun q => isFile t q) (mkdirVisits [] (components s)) <;> rfl
-
-theorem dirCreateAll_snd (t : Tree) (s : Str) :
-    (dirCreateAll t s).2 = !(mkdirVisits [] (components s)).any (fun q => isFile t q) := by
-  unfold dirCreateAll
-  simp only []
-  cases hf : List.find? (fun q => isFile t q) (mkdirVisits [] (components s)) with
+theorem mkdirRun_snd (t : Tree) (vs : List Path) : (mkdirRun t vs).2 = !vs.any (fun q => isFile t q) := by
+  unfold mkdirRun
+  cases hf : List.find? (fun q => isFile t q) vs with
   | none =>
     rw [List.find?_eq_none] at hf
-    have : (mkdirVisits [] (components s)).any (fun q => isFile t q) = false := by simpa using hf
+    have : vs.any (fun q => isFile t q) = false := by simpa using hf
     simp [this]
   | some f =>
-    have : (mkdirVisits [] (components s)).any (fun q => isFile t q) = true := by
+    have : vs.any (fun q => isFile t q) = true := by
       rw [List.any_eq_true]
       exact ⟨f, List.mem_of_find?_eq_some hf, List.find?_some hf⟩
     simp [this]
 
+theorem dirCreateAll_fst (t : Tree) (s : Str) :
+    (dirCreateAll t s).1 = (dirCreateAllMakes t s).foldl mkdirStep t := by
+  unfold dirCreateAll dirCreateAllMakes mkdirRun
+  simp only []
+  split <;> cases List.find? (fun q => isFile t q) (dirCreateAllVisits s) <;> rfl
+
+theorem dirCreateAll_snd (t : Tree) (s : Str) :
+    (dirCreateAll t s).2 = (!(dirCreateAllVisits s).any (fun q => isFile t q) &&
+      (!lastMustExist s || isDir (dirCreateAll t s).1 (lastVisit s))) := by
+  unfold dirCreateAll lastVisit
+  simp only []
+  split
+  · next h => simp [h, mkdirRun_snd]
+  · next h => simp [h, mkdirRun_snd]
+
+theorem dirCreateAllVisits_sub (s : Str) : ∀ q ∈ dirCreateAllVisits s, q ∈ mkdirVisits [] (components s) := by
+  unfold dirCreateAllVisits
+  intro q hq
+  split at hq
+  · exact (List.dropLast_sublist _).subset hq
+  · exact hq
+
 theorem dirCreateAllMakes_sub (t : Tree) (s : Str) :
-    ∀ q ∈ dirCreateAllMakes t s, q ∈ mkdirVisits [] (components s) := by
+    ∀ q ∈ dirCreateAllMakes t s, q ∈ dirCreateAllVisits s := by
   unfold dirCreateAllMakes
   intro q hq
   split at hq
   · exact hq
   · exact (List.takeWhile_sublist _).subset (List.mem_filter.1 hq).1
 
-/-- `DIRECTORY_CREATE_ALL` succeeds exactly when none of the directories it visits is a file -/
+/-- `DIRECTORY_CREATE_ALL` succeeds exactly when none of the directories it would make is a file and — for a
+path string `…/x/.` — the last directory named is there in the end -/
 theorem dirCreateAll_success_iff_visits (t : Tree) (s : Str) :
-    (dirCreateAll t s).2 = true ↔ ∀ q ∈ mkdirVisits [] (components s), isFile t q = false := by
+    (dirCreateAll t s).2 = true ↔
+      (∀ q ∈ dirCreateAllVisits s, isFile t q = false) ∧
+      (lastMustExist s = true → isDir (dirCreateAll t s).1 (lastVisit s) = true) := by
   rw [dirCreateAll_snd]
-  simp
+  cases lastMustExist s <;> simp
 
-theorem dirCreateAllMakes_of_success (t : Tree) (s : Str) (h : (dirCreateAll t s).2 = true) :
-    dirCreateAllMakes t s = mkdirVisits [] (components s) := by
-  have hall := (dirCreateAll_success_iff_visits t s).1 h
+theorem dirCreateAllMakes_of_nofile (t : Tree) (s : Str) (hall : ∀ q ∈ dirCreateAllVisits s, isFile t q = false) :
+    dirCreateAllMakes t s = dirCreateAllVisits s := by
   unfold dirCreateAllMakes
-  cases hf : List.find? (fun q => isFile t q) (mkdirVisits [] (components s)) with
+  cases hf : List.find? (fun q => isFile t q) (dirCreateAllVisits s) with
   | none => rfl
   | some f =>
     have := hall f (List.mem_of_find?_eq_some hf)
     have h2 := List.find?_some hf
     simp [this] at h2
 
+theorem dirCreateAllMakes_of_success (t : Tree) (s : Str) (h : (dirCreateAll t s).2 = true) :
+    dirCreateAllMakes t s = dirCreateAllVisits s :=
+  dirCreateAllMakes_of_nofile t s ((dirCreateAll_success_iff_visits t s).1 h).1
+
 theorem dirCreateAll_find? (t : Tree) (s : Str) (q : Path) :
     find? (dirCreateAll t s).1 q =
       if q ∈ dirCreateAllMakes t s ∧ find? t q = none then some .dir else find? t q := by
   rw [dirCreateAll_fst]
-  exact find?_foldl_mkdir _ (fun a ha => ne_nil_of_mem_mkdirVisits (dirCreateAllMakes_sub t s a ha)) t q
+  exact find?_foldl_mkdir _ (fun a ha =>
+    ne_nil_of_mem_mkdirVisits (dirCreateAllVisits_sub s a (dirCreateAllMakes_sub t s a ha))) t q
 
-/-- `DIRECTORY_CREATE_ALL`, success: exactly the visited paths at which nothing was change, and they
-become directories; every other path (and every existing entry) is as before -/
+/-- `DIRECTORY_CREATE_ALL`, success: exactly the paths of `dirCreateAllVisits` at which nothing was change,
+and they become directories; every other path (and every existing entry) is as before -/
 theorem dirCreateAll_frame_visits (t : Tree) (s : Str) (q : Path) (h : (dirCreateAll t s).2 = true) :
     find? (dirCreateAll t s).1 q =
-      if q ∈ mkdirVisits [] (components s) ∧ find? t q = none then some .dir else find? t q := by
+      if q ∈ dirCreateAllVisits s ∧ find? t q = none then some .dir else find? t q := by
   rw [dirCreateAll_find?, dirCreateAllMakes_of_success t s h]
 
 /-- `DIRECTORY_CREATE_ALL`, success or not: an entry is as before, or it is a new directory at a visited
 path at which nothing was -/
 theorem dirCreateAll_only_adds_dirs (t : Tree) (s : Str) (q : Path) :
     find? (dirCreateAll t s).1 q = find? t q ∨
-      (q ∈ mkdirVisits [] (components s) ∧ find? t q = none ∧ find? (dirCreateAll t s).1 q = some .dir) := by
+      (q ∈ dirCreateAllVisits s ∧ find? t q = none ∧ find? (dirCreateAll t s).1 q = some .dir) := by
   rw [dirCreateAll_find?]
   by_cases hc : q ∈ dirCreateAllMakes t s ∧ find? t q = none
   · right; rw [if_pos hc]; exact ⟨dirCreateAllMakes_sub t s q hc.1, hc.2, rfl⟩
@@ -681,19 +708,32 @@ theorem dirCreateAll_keeps (t : Tree) (s : Str) (q : Path) (n : FsNode) (h : fin
   · rw [h', h]
   · rw [h] at h'; cases h'
 
-theorem dirCreateAll_eq (t : Tree) (s : Str) (hnd : noDotDot s = true) :
+/-- `DIRECTORY_CREATE_ALL("…/x/.")` never makes `x`: it fails unless `x` is there (as a directory) -/
+theorem dirCreateAll_final_dot (t : Tree) (s : Str) (hl : lastMustExist s = true)
+    (hx : find? t (lastVisit s) = none) (hnew : lastVisit s ∉ dirCreateAllVisits s) :
+    (dirCreateAll t s).2 = false ∧ find? (dirCreateAll t s).1 (lastVisit s) = none := by
+  have hfind : find? (dirCreateAll t s).1 (lastVisit s) = none := by
+    rw [dirCreateAll_find?]
+    have : ¬ (lastVisit s ∈ dirCreateAllMakes t s ∧ find? t (lastVisit s) = none) :=
+      fun h => hnew (dirCreateAllMakes_sub t s _ h.1)
+    rw [if_neg this, hx]
+  refine ⟨?_, hfind⟩
+  rw [dirCreateAll_snd, hl, not_isDir_of_absent hfind]
+  simp
+
+theorem dirCreateAll_eq (t : Tree) (s : Str) (hpl : plain s = true) :
     dirCreateAll t s =
       if (prefixes (components s)).any (fun q => isFile t q) then (t, false)
       else ((prefixes (components s)).foldl mkdirStep t, true) := by
-  rw [dirCreateAll_eq_lexical t s hnd]; rfl
+  rw [dirCreateAll_eq_lexical t s (lexicalOK_of_plain hpl)]; rfl
 
-/-- `DIRECTORY_CREATE_ALL` without `..`: exactly the prefixes of the named path that did not exist change,
-and they become directories; every other path (and every existing entry) is as before -/
-theorem dirCreateAll_frame (t : Tree) (s : Str) (q : Path) (hnd : noDotDot s = true) :
+/-- `DIRECTORY_CREATE_ALL` on a plain path string: exactly the prefixes of the named path that did not exist
+change, and they become directories; every other path (and every existing entry) is as before -/
+theorem dirCreateAll_frame (t : Tree) (s : Str) (q : Path) (hpl : plain s = true) :
     find? (dirCreateAll t s).1 q =
       if q ∈ prefixes (components s) ∧ find? t q = none ∧ (dirCreateAll t s).2 = true then some .dir
       else find? t q := by
-  rw [dirCreateAll_eq t s hnd]
+  rw [dirCreateAll_eq t s hpl]
   split
   · simp
   · simp only [and_true]
@@ -703,7 +743,8 @@ theorem dirCreateAll_frame (t : Tree) (s : Str) (q : Path) (hnd : noDotDot s = t
 
 /-- on a path other than the root DIRECTORY_REMOVE_ALL succeeds exactly on a non-empty path string that
 names a directory -/
-theorem dirRemoveAll_nonroot_success_iff (t : Tree) (s : Str) (p : Path) (hr : resolve t s = some p) (hroot : p ≠ []) :
+theorem dirRemoveAll_nonroot_success_iff (t : Tree) (s : Str) (p : Path) (hr : resolve t s = some p) (hroot : p ≠ [])
+    (hdot : endsDot s = false) :
     (dirRemoveAll t s).2 = true ↔ s ≠ [] ∧ isDir t p = true := by
   rw [dirRemoveAll_on, onResolved_some hr, dirRemoveAllAt_success_iff, ← isDir_iff]
   constructor
@@ -712,11 +753,12 @@ theorem dirRemoveAll_nonroot_success_iff (t : Tree) (s : Str) (p : Path) (hr : r
     refine ⟨h1, h2, ?_⟩
     by_cases hdd : endsDotDot s = true
     · exact Or.inl (dotdot_unresolved_after t s p hdd hr hroot)
-    · exact Or.inr ⟨hroot, by simpa using hdd⟩
+    · exact Or.inr ⟨hroot, by simp [lastDots, hdot, hdd]⟩
 
-/-- for `DIRECTORY_REMOVE_ALL` failure leaves the tree as it was on every path but the root (see
-`dirRemoveAll_root_resolve`) -/
+/-- for `DIRECTORY_REMOVE_ALL` failure leaves the tree as it was on every path string that does not name
+the root (see `dirRemoveAll_root_resolve`) and does not end in `.` (see `dirRemoveAll_final_dot`) -/
 theorem dirRemoveAll_failure_unchanged_resolve (t : Tree) (s : Str) (hroot : s = [] ∨ resolve t s ≠ some [])
+    (hdot : endsDot s = false)
     (h : (dirRemoveAll t s).2 = false) : (dirRemoveAll t s).1 = t := by
   cases hr : resolve t s with
   | none => rw [dirRemoveAll_on, onResolved_none hr]
@@ -727,7 +769,7 @@ theorem dirRemoveAll_failure_unchanged_resolve (t : Tree) (s : Str) (hroot : s =
       · exact Or.inr fun e => h0 (by rw [hr, e])
     by_cases hg : s ≠ [] ∧ isDir t p = true
     · have hpne : p ≠ [] := hp.resolve_left hg.1
-      rw [(dirRemoveAll_nonroot_success_iff t s p hr hpne).2 hg] at h; cases h
+      rw [(dirRemoveAll_nonroot_success_iff t s p hr hpne hdot).2 hg] at h; cases h
     · rw [dirRemoveAll_on, onResolved_some hr]
       unfold dirRemoveAllAt
       have : (s == [] || !isDir t p) = true := by
@@ -737,22 +779,46 @@ theorem dirRemoveAll_failure_unchanged_resolve (t : Tree) (s : Str) (hroot : s =
           simp [this]
       simp only [this, ↓reduceIte]
 
-theorem dirRemoveAll_failure_unchanged (t : Tree) (s : Str) (hnd : noDotDot s = true)
+theorem dirRemoveAll_failure_unchanged (t : Tree) (s : Str) (hpl : plain s = true)
     (hroot : s = [] ∨ components s ≠ [])
     (h : (dirRemoveAll t s).2 = false) : (dirRemoveAll t s).1 = t := by
-  refine dirRemoveAll_failure_unchanged_resolve t s ?_ h
+  have hnd := noDotDot_of_plain hpl
+  refine dirRemoveAll_failure_unchanged_resolve t s ?_ (endsDot_of_plain hpl) h
   rcases hroot with h0 | h0
   · exact Or.inl h0
   · exact Or.inr (ne_resolve_of_noDotDot hnd (Ne.symm h0))
 
-/-- `DIRECTORY_REMOVE_ALL` on a path other than the root: on success exactly the paths below the resolved
-directory disappear; every other path — the directory itself aside, see `dirRemoveAll_at_resolved` — is as
-before -/
+/-- `DIRECTORY_REMOVE_ALL` that gets as far as removing (a non-empty path string that names a directory):
+whatever the outcome every path strictly below the directory disappears and every other path — the
+directory itself aside — is as before -/
+theorem dirRemoveAll_frame_guard (t : Tree) (s : Str) (p q : Path) (hr : resolve t s = some p) (hq : q ≠ p) :
+    find? (dirRemoveAll t s).1 q =
+      if (s ≠ [] ∧ isDir t p = true) ∧ p.isPrefixOf q = true then none else find? t q := by
+  rw [dirRemoveAll_on, onResolved_some hr]
+  exact dirRemoveAllAt_frame t s p q hq
+
+/-- `DIRECTORY_REMOVE_ALL("d/.")` (and any path string ending in `.` that still resolves once the directory
+is emptied): the directory is emptied, stays, and the call reports failure (`rmdir("d/.")` is `EINVAL`) -/
+theorem dirRemoveAll_final_dot (t : Tree) (s : Str) (p : Path) (hdot : endsDot s = true)
+    (hr : resolve t s = some p) (hd : isDir t p = true) (hres : resolve (eraseBelow t p) s ≠ none) :
+    dirRemoveAll t s = (eraseBelow t p, false) := by
+  have hs : s ≠ [] := by intro e; subst e; simp [endsDot, splitSlash] at hdot
+  rw [dirRemoveAll_on, onResolved_some hr]
+  unfold dirRemoveAllAt
+  have hg : (s == [] || !isDir t p) = false := by simp [hs, hd]
+  simp only [hg, Bool.false_eq_true, ↓reduceIte]
+  cases h : resolve (eraseBelow t p) s with
+  | none => exact absurd h hres
+  | some p' => simp [lastDots, hdot]
+
+/-- `DIRECTORY_REMOVE_ALL` on a path other than the root (the string not ending in `.`): on success exactly
+the paths below the resolved directory disappear; every other path — the directory itself aside, see
+`dirRemoveAll_at_resolved` — is as before -/
 theorem dirRemoveAll_frame_resolve (t : Tree) (s : Str) (p q : Path) (hr : resolve t s = some p) (hroot : p ≠ [])
-    (hq : q ≠ p) :
+    (hdot : endsDot s = false) (hq : q ≠ p) :
     find? (dirRemoveAll t s).1 q =
       if (dirRemoveAll t s).2 = true ∧ p.isPrefixOf q = true then none else find? t q := by
-  have hg := dirRemoveAll_nonroot_success_iff t s p hr hroot
+  have hg := dirRemoveAll_nonroot_success_iff t s p hr hroot hdot
   have hf := dirRemoveAllAt_frame t s p q hq
   rw [dirRemoveAll_on, onResolved_some hr] at hg ⊢
   rw [hf]
@@ -778,13 +844,14 @@ theorem dirRemoveAll_at_resolved (t : Tree) (s : Str) (p : Path) (hr : resolve t
   | some p' =>
     rcases h3 with h3 | h3
     · rw [hres] at h3; cases h3
-    · have hc : (p == [] || endsDotDot s) = false := by simp [h3.1, h3.2]
+    · have hc : (p == [] || lastDots s) = false := by simp [h3.1, h3.2]
       simp only [hc, Bool.false_eq_true, ↓reduceIte, reduceCtorEq]
       rw [find?_eraseUnder]; simp [hroot, isPrefixOf_self]
 
-theorem dirRemoveAll_frame (t : Tree) (s : Str) (q : Path) (hnd : noDotDot s = true) (hroot : components s ≠ []) :
+theorem dirRemoveAll_frame (t : Tree) (s : Str) (q : Path) (hpl : plain s = true) (hroot : components s ≠ []) :
     find? (dirRemoveAll t s).1 q =
       if (dirRemoveAll t s).2 = true ∧ (components s).isPrefixOf q = true then none else find? t q := by
+  have hnd := noDotDot_of_plain hpl
   have hr := resolve_eq_components t s hnd
   by_cases hq : q = components s
   · subst hq
@@ -792,21 +859,21 @@ theorem dirRemoveAll_frame (t : Tree) (s : Str) (q : Path) (hnd : noDotDot s = t
     · rw [dirRemoveAll_at_resolved t s _ hr hroot h, resolve_eq_components _ s hnd]
       simp [h, isPrefixOf_self]
     · have h' : (dirRemoveAll t s).2 = false := by simpa using h
-      rw [dirRemoveAll_failure_unchanged t s hnd (Or.inr hroot) h']
+      rw [dirRemoveAll_failure_unchanged t s hpl (Or.inr hroot) h']
       simp [h']
-  · exact dirRemoveAll_frame_resolve t s _ q hr hroot hq
+  · exact dirRemoveAll_frame_resolve t s _ q hr hroot (endsDot_of_plain hpl) hq
 
 /-- a path that does not lie under the resolved directory is untouched by `DIRECTORY_REMOVE_ALL` -/
 theorem dirRemoveAll_frame_outside_resolve (t : Tree) (s : Str) (p q : Path) (hr : resolve t s = some p)
-    (hroot : p ≠ []) (hq : p.isPrefixOf q = false) : find? (dirRemoveAll t s).1 q = find? t q := by
+    (hq : p.isPrefixOf q = false) : find? (dirRemoveAll t s).1 q = find? t q := by
   have hne : q ≠ p := by
     intro e; rw [e, isPrefixOf_self] at hq; cases hq
-  rw [dirRemoveAll_frame_resolve t s p q hr hroot hne]; simp [hq]
+  rw [dirRemoveAll_frame_guard t s p q hr hne]; simp [hq]
 
 theorem dirRemoveAll_frame_outside (t : Tree) (s : Str) (q : Path) (hnd : noDotDot s = true)
-    (hroot : components s ≠ []) (hq : (components s).isPrefixOf q = false) :
+    (_hroot : components s ≠ []) (hq : (components s).isPrefixOf q = false) :
     find? (dirRemoveAll t s).1 q = find? t q :=
-  dirRemoveAll_frame_outside_resolve t s _ q (resolve_eq_components t s hnd) hroot hq
+  dirRemoveAll_frame_outside_resolve t s _ q (resolve_eq_components t s hnd) hq
 
 /-- the exception: `DIRECTORY_REMOVE_ALL` on a path string that names the sandbox root empties the tree.
 For `"."`, `"/"`, `"./"` … it then reports failure (src: `remove_dir_all(".")` removes the contents, then
@@ -824,7 +891,7 @@ theorem dirRemoveAll_root_resolve (t : Tree) (s : Str) (hs : s ≠ []) (hr : res
 
 theorem dirRemoveAll_root (t : Tree) (s : Str) (hnd : noDotDot s = true) (hs : s ≠ []) (hroot : components s = []) :
     dirRemoveAll t s = ([], false) := by
-  rw [dirRemoveAll_eq_lexical t s hnd]
+  rw [dirRemoveAll_eq_lexical t s (by simp [lexicalOK, hnd, hroot])]
   unfold Lexical.dirRemoveAll
   simp [hs, hroot]
 
@@ -836,11 +903,11 @@ theorem fileCreate_success_iff_resolve (t : Tree) (s : Str) :
         isDir t (parent p) = true := by
   rw [fileCreate_on, onResolved_flag]; simp only [fileCreateAt_success_iff]
 
-theorem fileCreate_success_iff (t : Tree) (s : Str) (hnd : noDotDot s = true) :
+theorem fileCreate_success_iff (t : Tree) (s : Str) (hpl : plain s = true) :
     (fileCreate t s).2 = true ↔
       s ≠ [] ∧ trailingSlash s = false ∧ components s ≠ [] ∧ find? t (components s) = none ∧
         isDir t (parent (components s)) = true := by
-  rw [fileCreate_success_iff_resolve, resolve_eq_components t s hnd, dirOnly_of_noDotDot hnd]; simp
+  rw [fileCreate_success_iff_resolve, resolve_eq_components t s (noDotDot_of_plain hpl), dirOnly_of_plain hpl]; simp
 
 /-- FILE_CREATE creates an empty file, and only where nothing exists -/
 theorem create_only_if_absent_resolve (t : Tree) (s : Str) (h : (fileCreate t s).2 = true) :
@@ -858,14 +925,14 @@ theorem create_only_if_absent (t : Tree) (s : Str) (hnd : noDotDot s = true) (h 
 
 theorem dirCreate_success_iff_resolve (t : Tree) (s : Str) :
     (dirCreate t s).2 = true ↔
-      ∃ p, resolve t s = some p ∧ s ≠ [] ∧ endsDotDot s = false ∧ p ≠ [] ∧ find? t p = none ∧
+      ∃ p, resolve t s = some p ∧ s ≠ [] ∧ lastDots s = false ∧ p ≠ [] ∧ find? t p = none ∧
         isDir t (parent p) = true := by
   rw [dirCreate_on, onResolved_flag]; simp only [dirCreateAt_success_iff]
 
-theorem dirCreate_success_iff (t : Tree) (s : Str) (hnd : noDotDot s = true) :
+theorem dirCreate_success_iff (t : Tree) (s : Str) (hpl : plain s = true) :
     (dirCreate t s).2 = true ↔
       s ≠ [] ∧ components s ≠ [] ∧ find? t (components s) = none ∧ isDir t (parent (components s)) = true := by
-  rw [dirCreate_success_iff_resolve, resolve_eq_components t s hnd, endsDotDot_of_noDotDot hnd]; simp
+  rw [dirCreate_success_iff_resolve, resolve_eq_components t s (noDotDot_of_plain hpl), lastDots_of_plain hpl]; simp
 
 theorem dirCreate_only_if_absent_resolve (t : Tree) (s : Str) (h : (dirCreate t s).2 = true) :
     ∃ p, resolve t s = some p ∧ find? t p = none ∧ find? (dirCreate t s).1 p = some .dir := by
@@ -886,20 +953,20 @@ theorem fileAppend_success_iff_resolve (t : Tree) (s text : Str) :
       ∃ p, resolve t s = some p ∧ s ≠ [] ∧ dirOnly s = false ∧ ∃ c, find? t p = some (.file c) := by
   rw [fileAppend_on, onResolved_flag]; simp only [fileAppendAt_success_iff]
 
-theorem fileAppend_success_iff (t : Tree) (s text : Str) (hnd : noDotDot s = true) :
+theorem fileAppend_success_iff (t : Tree) (s text : Str) (hpl : plain s = true) :
     (fileAppend t s text).2 = true ↔
       s ≠ [] ∧ trailingSlash s = false ∧ ∃ c, find? t (components s) = some (.file c) := by
-  rw [fileAppend_success_iff_resolve, resolve_eq_components t s hnd, dirOnly_of_noDotDot hnd]; simp
+  rw [fileAppend_success_iff_resolve, resolve_eq_components t s (noDotDot_of_plain hpl), dirOnly_of_plain hpl]; simp
 
 theorem fileOverwrite_success_iff_resolve (t : Tree) (s text : Str) :
     (fileOverwrite t s text).2 = true ↔
       ∃ p, resolve t s = some p ∧ s ≠ [] ∧ dirOnly s = false ∧ ∃ c, find? t p = some (.file c) := by
   rw [fileOverwrite_on, onResolved_flag]; simp only [fileOverwriteAt_success_iff]
 
-theorem fileOverwrite_success_iff (t : Tree) (s text : Str) (hnd : noDotDot s = true) :
+theorem fileOverwrite_success_iff (t : Tree) (s text : Str) (hpl : plain s = true) :
     (fileOverwrite t s text).2 = true ↔
       s ≠ [] ∧ trailingSlash s = false ∧ ∃ c, find? t (components s) = some (.file c) := by
-  rw [fileOverwrite_success_iff_resolve, resolve_eq_components t s hnd, dirOnly_of_noDotDot hnd]; simp
+  rw [fileOverwrite_success_iff_resolve, resolve_eq_components t s (noDotDot_of_plain hpl), dirOnly_of_plain hpl]; simp
 
 theorem isFileS_iff_resolve (t : Tree) (s : Str) :
     isFileS t s = true ↔
@@ -922,7 +989,7 @@ theorem append_overwrite_need_existing_file_resolve (t : Tree) (s text : Str) :
   rw [fileAppend_on, fileOverwrite_on, onResolved_some hr, onResolved_some hr]
   exact appendAt_overwriteAt_contents t s p text old h1 h2 h3
 
-theorem append_overwrite_need_existing_file (t : Tree) (s text : Str) (hnd : noDotDot s = true) :
+theorem append_overwrite_need_existing_file (t : Tree) (s text : Str) (hpl : plain s = true) :
     ((fileAppend t s text).2 = true ↔ isFileS t s = true) ∧
     ((fileOverwrite t s text).2 = true ↔ isFileS t s = true) ∧
     (∀ old, s ≠ [] → trailingSlash s = false → find? t (components s) = some (.file old) →
@@ -930,7 +997,7 @@ theorem append_overwrite_need_existing_file (t : Tree) (s text : Str) (hnd : noD
       find? (fileOverwrite t s text).1 (components s) = some (.file text)) := by
   obtain ⟨h1, h2, h3⟩ := append_overwrite_need_existing_file_resolve t s text
   refine ⟨h1, h2, fun old hs hts hf => ?_⟩
-  exact h3 _ old (resolve_eq_components t s hnd) hs (by rw [dirOnly_of_noDotDot hnd]; exact hts) hf
+  exact h3 _ old (resolve_eq_components t s (noDotDot_of_plain hpl)) hs (by rw [dirOnly_of_plain hpl]; exact hts) hf
 
 /-! ## failure leaves the tree as it was -/
 
@@ -964,11 +1031,11 @@ theorem dirRemove_failure_unchanged (t : Tree) (s : Str) (h : (dirRemove t s).2 
   rw [dirRemove_on] at h ⊢
   exact onResolved_unchanged t s _ (fun p _ => dirRemoveAt_failure_unchanged t s p) h
 
-/-- without `..` a failing `DIRECTORY_CREATE_ALL` has made nothing. (With `..` it may have:
+/-- on a plain path string a failing `DIRECTORY_CREATE_ALL` has made nothing. (With `..` or a final `.` it may have:
 `dirCreateAll_only_adds_dirs` is what holds then, and `Demo.createAll_partial` shows it happen.) -/
-theorem dirCreateAll_failure_unchanged (t : Tree) (s : Str) (hnd : noDotDot s = true)
+theorem dirCreateAll_failure_unchanged (t : Tree) (s : Str) (hpl : plain s = true)
     (h : (dirCreateAll t s).2 = false) : (dirCreateAll t s).1 = t := by
-  rw [dirCreateAll_eq t s hnd] at *; split <;> simp_all
+  rw [dirCreateAll_eq t s hpl] at *; split <;> simp_all
 
 /-! ## reading -/
 
@@ -980,9 +1047,9 @@ theorem fileRead_eq_resolve (t : Tree) (s : Str) (c : Str) :
   | none => simp
   | some p => simp [fileReadAt_eq]
 
-theorem fileRead_eq (t : Tree) (s : Str) (c : Str) (hnd : noDotDot s = true) :
+theorem fileRead_eq (t : Tree) (s : Str) (c : Str) (hpl : plain s = true) :
     fileRead t s = some c ↔ s ≠ [] ∧ trailingSlash s = false ∧ find? t (components s) = some (.file c) := by
-  rw [fileRead_eq_resolve, resolve_eq_components t s hnd, dirOnly_of_noDotDot hnd]; simp
+  rw [fileRead_eq_resolve, resolve_eq_components t s (noDotDot_of_plain hpl), dirOnly_of_plain hpl]; simp
 
 /-- writing to a file, or creating one, changes no directory: every path string resolves as before -/
 theorem resolve_after_file_ops (t : Tree) (s text : Str) (s' : Str) :
@@ -1183,16 +1250,16 @@ theorem read_unaffected_by_dirCreateAll (t : Tree) (s s' : Str) (hnd' : noDotDot
 /-- DIRECTORY_REMOVE_ALL leaves every file outside the named directory readable as before (`s'` without
 `..`: with `..` it could pass through a directory that is removed) -/
 theorem read_unaffected_by_dirRemoveAll_outside_resolve (t : Tree) (s s' : Str) (p : Path)
-    (hr : resolve t s = some p) (hroot : p ≠ []) (hnd' : noDotDot s' = true)
+    (hr : resolve t s = some p) (hnd' : noDotDot s' = true)
     (h : p.isPrefixOf (components s') = false) :
     fileRead (dirRemoveAll t s).1 s' = fileRead t s' :=
-  fileRead_congr _ _ _ hnd' (dirRemoveAll_frame_outside_resolve t s p _ hr hroot h)
+  fileRead_congr _ _ _ hnd' (dirRemoveAll_frame_outside_resolve t s p _ hr h)
 
 theorem read_unaffected_by_dirRemoveAll_outside (t : Tree) (s s' : Str) (hnd : noDotDot s = true)
-    (hnd' : noDotDot s' = true) (hroot : components s ≠ [])
+    (hnd' : noDotDot s' = true) (_hroot : components s ≠ [])
     (h : (components s).isPrefixOf (components s') = false) :
     fileRead (dirRemoveAll t s).1 s' = fileRead t s' :=
-  read_unaffected_by_dirRemoveAll_outside_resolve t s s' _ (resolve_eq_components t s hnd) hroot hnd' h
+  read_unaffected_by_dirRemoveAll_outside_resolve t s s' _ (resolve_eq_components t s hnd) hnd' h
 
 end Aplang.Fs
 
@@ -1265,7 +1332,7 @@ theorem existsS_false_of (t' t : Tree) (s : Str) (hmono : ∀ q, isDir t' q = tr
 theorem dirRemoveAll_success_iff_resolve (t : Tree) (s : Str) :
     (dirRemoveAll t s).2 = true ↔
       ∃ p, resolve t s = some p ∧ s ≠ [] ∧ find? t p = some .dir ∧
-        (resolve (eraseBelow t p) s = none ∨ (p ≠ [] ∧ endsDotDot s = false)) := by
+        (resolve (eraseBelow t p) s = none ∨ (p ≠ [] ∧ lastDots s = false)) := by
   rw [dirRemoveAll_on, onResolved_flag]; simp only [dirRemoveAllAt_success_iff]
 
 /-- after a successful FILE_REMOVE / DIRECTORY_REMOVE / DIRECTORY_REMOVE_ALL the path string names nothing;
@@ -1331,7 +1398,7 @@ theorem dirRemoveAll_dotdot_unresolved (t : Tree) (s : Str) (hdd : endsDotDot s 
   have hres : resolve (eraseBelow t p) s = none := by
     rcases h3 with h3 | h3
     · exact h3
-    · rw [hdd] at h3; cases h3.2
+    · have := h3.2; simp [lastDots, hdd] at this
   rw [dirRemoveAll_on, onResolved_some hr]
   unfold dirRemoveAllAt
   have hg : (s == [] || !isDir t p) = false := by simp [h1, (isDir_iff t p).2 h2]
@@ -1351,14 +1418,14 @@ theorem remove_then_absent (t : Tree) (s : Str) (hnd : noDotDot s = true) :
 
 theorem dirRemove_success_iff_resolve (t : Tree) (s : Str) :
     (dirRemove t s).2 = true ↔
-      ∃ p, resolve t s = some p ∧ s ≠ [] ∧ endsDotDot s = false ∧ p ≠ [] ∧ find? t p = some .dir ∧
+      ∃ p, resolve t s = some p ∧ s ≠ [] ∧ lastDots s = false ∧ p ≠ [] ∧ find? t p = some .dir ∧
         children t p = [] := by
   rw [dirRemove_on, onResolved_flag]; simp only [dirRemoveAt_success_iff]
 
-theorem dirRemove_success_iff (t : Tree) (s : Str) (hnd : noDotDot s = true) :
+theorem dirRemove_success_iff (t : Tree) (s : Str) (hpl : plain s = true) :
     (dirRemove t s).2 = true ↔
       s ≠ [] ∧ components s ≠ [] ∧ find? t (components s) = some .dir ∧ children t (components s) = [] := by
-  rw [dirRemove_success_iff_resolve, resolve_eq_components t s hnd, endsDotDot_of_noDotDot hnd]; simp
+  rw [dirRemove_success_iff_resolve, resolve_eq_components t s (noDotDot_of_plain hpl), lastDots_of_plain hpl]; simp
 
 /-- DIRECTORY_REMOVE removes only an empty directory -/
 theorem dirRemove_only_if_empty_resolve (t : Tree) (s : Str) (h : (dirRemove t s).2 = true) :
@@ -1366,44 +1433,95 @@ theorem dirRemove_only_if_empty_resolve (t : Tree) (s : Str) (h : (dirRemove t s
   obtain ⟨p, hr, _, _, _, _, hc⟩ := (dirRemove_success_iff_resolve t s).1 h
   exact ⟨p, hr, hc⟩
 
-theorem dirRemove_only_if_empty (t : Tree) (s : Str) (hnd : noDotDot s = true) (h : (dirRemove t s).2 = true) :
-    children t (components s) = [] := ((dirRemove_success_iff t s hnd).1 h).2.2.2
+theorem dirRemove_only_if_empty (t : Tree) (s : Str) (hpl : plain s = true) (h : (dirRemove t s).2 = true) :
+    children t (components s) = [] := ((dirRemove_success_iff t s hpl).1 h).2.2.2
 
-/-- `DIRECTORY_REMOVE` of a path string ending in `..` fails whatever the tree (Linux: `ENOTEMPTY`) -/
-theorem dirRemove_dotdot_fails (t : Tree) (s : Str) (h : endsDotDot s = true) : dirRemove t s = (t, false) := by
-  rw [dirRemove_on]; unfold onResolved
+/-- `DIRECTORY_REMOVE` and `DIRECTORY_CREATE` of a path string whose last component is `.` or `..` fail
+whatever the tree (Linux: `rmdir` `EINVAL` / `ENOTEMPTY`, `mkdir` `EEXIST`, or `ENOENT` / `ENOTDIR`) -/
+theorem dirRemove_lastDots_fails (t : Tree) (s : Str) (h : lastDots s = true) :
+    dirRemove t s = (t, false) ∧ dirCreate t s = (t, false) := by
+  rw [dirRemove_on, dirCreate_on]; unfold onResolved
+  cases resolve t s with
+  | none => exact ⟨rfl, rfl⟩
+  | some p => simp [dirRemoveAt, dirCreateAt, h]
+
+theorem dirRemove_dotdot_fails (t : Tree) (s : Str) (h : endsDotDot s = true) : dirRemove t s = (t, false) :=
+  (dirRemove_lastDots_fails t s (by simp [lastDots, h])).1
+
+/-- a path string that can only name a directory (trailing `/`, last component `.` or `..`): the FILE_*
+procedures fail by value whatever it names, and PATH_IS_FILE is FALSE -/
+theorem dirOnly_file_ops_fail (t : Tree) (s text : Str) (h : dirOnly s = true) :
+    isFileS t s = false ∧ fileCreate t s = (t, false) ∧ fileRemove t s = (t, false) ∧ fileRead t s = none ∧
+    fileAppend t s text = (t, false) ∧ fileOverwrite t s text = (t, false) := by
+  unfold isFileS fileCreate fileRemove fileRead fileAppend fileOverwrite
+  cases resolve t s with
+  | none => simp
+  | some p => simp [isFileAt, fileCreateAt, fileRemoveAt, fileReadAt, fileAppendAt, fileOverwriteAt, h]
+
+/-- … and it names something only if it resolves to an existing directory: `g/.` with `g` a file names
+nothing -/
+theorem dirOnly_exists_iff (t : Tree) (s : Str) (h : dirOnly s = true) :
+    existsS t s = isDirS t s := by
+  unfold existsS isDirS
   cases resolve t s with
   | none => rfl
-  | some p => simp [dirRemoveAt, h]
+  | some p => simp [existsAt, isDirAt, h]
 
-theorem dirRemoveAll_success_iff (t : Tree) (s : Str) (hnd : noDotDot s = true) :
+theorem dirRemoveAll_success_iff (t : Tree) (s : Str) (hpl : plain s = true) :
     (dirRemoveAll t s).2 = true ↔ s ≠ [] ∧ components s ≠ [] ∧ find? t (components s) = some .dir := by
-  rw [dirRemoveAll_success_iff_resolve, resolve_eq_components t s hnd, endsDotDot_of_noDotDot hnd]
+  have hnd := noDotDot_of_plain hpl
+  rw [dirRemoveAll_success_iff_resolve, resolve_eq_components t s hnd, lastDots_of_plain hpl]
   simp only [Option.some.injEq, exists_eq_left', resolve_eq_components _ s hnd, reduceCtorEq, false_or, and_true]
   constructor
   · rintro ⟨h1, h2, h3⟩; exact ⟨h1, h3, h2⟩
   · rintro ⟨h1, h2, h3⟩; exact ⟨h1, h3, h2⟩
 
-/-- DIRECTORY_CREATE_ALL without `..` fails exactly when some prefix of the path is a file -/
-theorem dirCreateAll_success_iff (t : Tree) (s : Str) (hnd : noDotDot s = true) :
-    (dirCreateAll t s).2 = true ↔ ∀ q ∈ prefixes (components s), isFile t q = false := by
-  rw [dirCreateAll_success_iff_visits, mkdirVisits_eq_prefixes s hnd]
+theorem dirCreateAllVisits_of_plain (s : Str) (hpl : plain s = true) :
+    dirCreateAllVisits s = prefixes (components s) := by
+  unfold dirCreateAllVisits
+  simp only [lastMustExist_of_plain hpl, Bool.false_eq_true, ↓reduceIte]
+  exact mkdirVisits_eq_prefixes s (noDotDot_of_plain hpl)
 
-/-- after a successful DIRECTORY_CREATE_ALL every directory it visits is a directory -/
+/-- DIRECTORY_CREATE_ALL on a plain path string fails exactly when some prefix of the path is a file -/
+theorem dirCreateAll_success_iff (t : Tree) (s : Str) (hpl : plain s = true) :
+    (dirCreateAll t s).2 = true ↔ ∀ q ∈ prefixes (components s), isFile t q = false := by
+  rw [dirCreateAll_success_iff_visits, dirCreateAllVisits_of_plain s hpl]
+  simp [lastMustExist_of_plain hpl]
+
+/-- after a successful DIRECTORY_CREATE_ALL every directory the path string visits is a directory (for
+`…/x/.` the last one because it was there, the others because they were or have been made) -/
 theorem dirCreateAll_makes_dirs_visits (t : Tree) (s : Str) (h : (dirCreateAll t s).2 = true) :
     ∀ q ∈ mkdirVisits [] (components s), find? (dirCreateAll t s).1 q = some .dir := by
+  obtain ⟨hall, hlast⟩ := (dirCreateAll_success_iff_visits t s).1 h
+  have hmade : ∀ q ∈ dirCreateAllVisits s, find? (dirCreateAll t s).1 q = some .dir := by
+    intro q hq
+    have hf := hall q hq
+    rw [dirCreateAll_frame_visits t s q h]
+    unfold isFile at hf
+    cases hc : find? t q with
+    | none => simp [hq]
+    | some n => cases n <;> simp_all
   intro q hq
-  have hf := (dirCreateAll_success_iff_visits t s).1 h q hq
-  rw [dirCreateAll_frame_visits t s q h]
-  unfold isFile at hf
-  cases hc : find? t q with
-  | none => simp [hq]
-  | some n => cases n <;> simp_all
+  by_cases hl : lastMustExist s = true
+  · cases hg : (mkdirVisits [] (components s)).getLast? with
+    | none => rw [List.getLast?_eq_none_iff.1 hg] at hq; cases hq
+    | some L =>
+      have hsplit := dropLast_append_of_getLast? hg
+      rw [← hsplit, List.mem_append] at hq
+      rcases hq with hq | hq
+      · apply hmade
+        unfold dirCreateAllVisits; rw [if_pos hl]; exact hq
+      · have hL : lastVisit s = L := by unfold lastVisit; rw [hg]; rfl
+        have : q = L := by simpa using hq
+        rw [this, ← hL]
+        exact (isDir_iff _ _).1 (hlast hl)
+  · apply hmade
+    unfold dirCreateAllVisits; rw [if_neg hl]; exact hq
 
-theorem dirCreateAll_makes_dirs (t : Tree) (s : Str) (hnd : noDotDot s = true) (h : (dirCreateAll t s).2 = true) :
+theorem dirCreateAll_makes_dirs (t : Tree) (s : Str) (hpl : plain s = true) (h : (dirCreateAll t s).2 = true) :
     ∀ q ∈ prefixes (components s), find? (dirCreateAll t s).1 q = some .dir := by
   have := dirCreateAll_makes_dirs_visits t s h
-  rw [mkdirVisits_eq_prefixes s hnd] at this
+  rw [mkdirVisits_eq_prefixes s (noDotDot_of_plain hpl)] at this
   exact this
 
 /-! ## the PATH_* predicates agree with `find?` -/
@@ -1422,14 +1540,14 @@ theorem path_predicates_agree_with_find_resolve (t : Tree) (s : Str) :
     obtain ⟨h1, h2, h3⟩ := predicatesAt_agree_with_find t s p
     simp [h1, h2, h3]
 
-theorem path_predicates_agree_with_find (t : Tree) (s : Str) (hnd : noDotDot s = true) :
+theorem path_predicates_agree_with_find (t : Tree) (s : Str) (hpl : plain s = true) :
     (existsS t s = true ↔
       s ≠ [] ∧ (if trailingSlash s = true then find? t (components s) = some .dir
                 else (find? t (components s)).isSome = true)) ∧
     (isFileS t s = true ↔ s ≠ [] ∧ trailingSlash s = false ∧ ∃ c, find? t (components s) = some (.file c)) ∧
     (isDirS t s = true ↔ s ≠ [] ∧ find? t (components s) = some .dir) := by
   obtain ⟨h1, h2, h3⟩ := path_predicates_agree_with_find_resolve t s
-  rw [h1, h2, h3, resolve_eq_components t s hnd, dirOnly_of_noDotDot hnd]
+  rw [h1, h2, h3, resolve_eq_components t s (noDotDot_of_plain hpl), dirOnly_of_plain hpl]
   simp
 
 /-- PATH_IS_FILE says TRUE exactly for the paths FILE_READ can read -/
@@ -1601,10 +1719,14 @@ structure SameName (t : Tree) (s s' : Str) : Prop where
   res : resolve t s = resolve t s'
   empty : s = [] ↔ s' = []
   ends : endsDotDot s = endsDotDot s'
+  dot : endsDot s = endsDot s'
   slash : trailingSlash s = trailingSlash s'
 
+theorem SameName.lastDots {t : Tree} {s s' : Str} (h : SameName t s s') : lastDots s = lastDots s' := by
+  unfold Fs.lastDots; rw [h.dot, h.ends]
+
 theorem SameName.dirOnly {t : Tree} {s s' : Str} (h : SameName t s s') : dirOnly s = dirOnly s' := by
-  unfold Fs.dirOnly; rw [h.slash, h.ends]
+  unfold Fs.dirOnly; rw [h.slash, h.lastDots]
 
 /-- operations on two path strings that name the same thing are the same operation -/
 theorem ops_congr (t : Tree) (s s' : Str) (h : SameName t s s') (text : Str) :
@@ -1627,7 +1749,7 @@ theorem ops_congr (t : Tree) (s s' : Str) (h : SameName t s s') (text : Str) :
     simp only []
     unfold existsAt isFileAt isDirAt fileCreateAt fileRemoveAt fileReadAt fileAppendAt fileOverwriteAt dirCreateAt
       dirRemoveAt dirReadAt
-    rw [he, hne, hd, h.ends]
+    rw [he, hne, hd, h.lastDots]
     refine ⟨rfl, rfl, rfl, rfl, rfl, rfl, rfl, rfl, rfl, rfl, ?_⟩
     simp only []
     split <;> simp
@@ -1648,7 +1770,7 @@ theorem dirRemoveAll_congr (t : Tree) (s s' : Str) (h : SameName t s s')
   | some p =>
     simp only []
     unfold dirRemoveAllAt
-    rw [he, h.ends]
+    rw [he, h.lastDots]
     split
     · rfl
     · have := hafter p hr
@@ -1686,7 +1808,7 @@ theorem sameName_upFrom (t : Tree) (d x : Str) (p : Path) (hr : resolve t d = so
   have hends : endsDotDot (upFrom d x) = endsDotDot x := by
     unfold endsDotDot
     rw [components_upFrom, getLast?_append_cons_of_ne_nil _ _ _ hx]
-  refine ⟨?_, ?_, hends, ?_⟩
+  refine ⟨?_, ?_, hends, endsDot_upFrom d x hx, ?_⟩
   · unfold resolve; rw [components_upFrom]; exact hres _
   · constructor
     · intro e; unfold upFrom at e; simp at e
@@ -1733,6 +1855,24 @@ theorem dotdot_roundtrip (t : Tree) (d x : Str) (p : Path) (hr : resolve t d = s
       simp only [Function.comp]
       split <;> simp [upFrom]
 
+theorem mkdirRun_cons_dir (t : Tree) (c : Str) (vs : List Path) (hd : isDir t [c] = true) :
+    mkdirRun t ([c] :: vs) = mkdirRun t vs := by
+  have hnf : isFile t [c] = false := by
+    have := (isDir_iff t [c]).1 hd
+    unfold isFile; rw [this]
+  have hstep : mkdirStep t [c] = t := by
+    unfold mkdirStep pathExists
+    rw [(isDir_iff t [c]).1 hd]; rfl
+  unfold mkdirRun
+  simp only [List.find?_cons, hnf]
+  cases List.find? (fun q => isFile t q) vs with
+  | none => simp only [List.foldl_cons, hstep]
+  | some f =>
+    simp only [List.takeWhile_cons, hnf, Bool.not_false, ↓reduceIte, List.filter_cons]
+    split
+    · simp only [List.foldl_cons, hstep]
+    · rfl
+
 /-- `DIRECTORY_CREATE_ALL` round trip: `d` a single name that is an existing directory -/
 theorem dotdot_roundtrip_createAll (t : Tree) (d x : Str) (c : Str) (hc : components d = [c]) (hcd : c ≠ dotdot)
     (hd : isDir t [c] = true) : dirCreateAll t (upFrom d x) = dirCreateAll t x := by
@@ -1740,21 +1880,37 @@ theorem dotdot_roundtrip_createAll (t : Tree) (d x : Str) (c : Str) (hc : compon
     rw [components_upFrom, hc]
     have h1 : (c == dotdot) = false := by simpa using hcd
     simp [mkdirVisits, h1, parent]
-  have hnf : isFile t [c] = false := by
-    have := (isDir_iff t [c]).1 hd
-    unfold isFile; rw [this]
-  have hstep : mkdirStep t [c] = t := by
-    unfold mkdirStep pathExists
-    rw [(isDir_iff t [c]).1 hd]; rfl
-  unfold dirCreateAll
-  simp only [hvis, List.find?_cons, hnf]
-  cases List.find? (fun q => isFile t q) (mkdirVisits [] (components x)) with
-  | none => simp only [List.foldl_cons, hstep]
-  | some f =>
-    simp only [List.takeWhile_cons, hnf, Bool.not_false, ↓reduceIte, List.filter_cons]
-    split
-    · simp only [List.foldl_cons, hstep]
-    · rfl
+  have hrun := mkdirRun_cons_dir t c
+  by_cases hx : components x = []
+  · have h1 : lastMustExist (upFrom d x) = false := by
+      have : endsDotDot (upFrom d x) = true := by
+        unfold endsDotDot; rw [components_upFrom, hx, hc]; rfl
+      simp [lastMustExist, this]
+    have h2 : lastMustExist x = false := by simp [lastMustExist, hx]
+    unfold dirCreateAll dirCreateAllVisits
+    simp only [h1, h2, Bool.false_eq_true, ↓reduceIte, hvis, hrun _ hd]
+  · have hl : lastMustExist (upFrom d x) = lastMustExist x := by
+      have hends : endsDotDot (upFrom d x) = endsDotDot x := by
+        unfold endsDotDot
+        rw [components_upFrom, getLast?_append_cons_of_ne_nil _ _ _ hx]
+      have hne : (components (upFrom d x) != []) = (components x != []) := by
+        rw [components_upFrom, hc]
+        have : (components x != []) = true := by simpa using hx
+        rw [this]; rfl
+      unfold lastMustExist
+      rw [endsDot_upFrom d x hx, hends, hne]
+    unfold dirCreateAll dirCreateAllVisits
+    rw [hl, hvis]
+    cases lastMustExist x with
+    | false => simp only [Bool.false_eq_true, ↓reduceIte, hrun _ hd]
+    | true =>
+      simp only [↓reduceIte]
+      cases hv : mkdirVisits [] (components x) with
+      | nil => simp [mkdirRun, hd, isDir_nil]
+      | cons v vs =>
+        have h1 : ([c] :: v :: vs).dropLast = [c] :: (v :: vs).dropLast := rfl
+        have h2 : ([c] :: v :: vs).getLast? = (v :: vs).getLast? := by simp [List.getLast?_cons_cons]
+        rw [h1, h2, hrun _ hd]
 
 theorem resolve_single (t : Tree) (d : Str) (c : Str) (hc : components d = [c]) (hcd : c ≠ dotdot) :
     resolve t d = some [c] := by
@@ -2162,6 +2318,62 @@ example : (dirCreateAll demoTree2 "g/../x".toList).2 = false ∧
 /-- a path string that did not resolve can resolve after DIRECTORY_CREATE_ALL -/
 example : fileRead demoTree2 "new/../g".toList = none ∧
     fileRead (dirCreateAll demoTree2 "new".toList).1 "new/../g".toList = some ['g', 'g'] := by decide
+
+/-! a last component `.`: the path string can only name a directory *(run)* -/
+example : endsDot "g/.".toList = true ∧ endsDot "g/./".toList = true ∧ endsDot "d/./.".toList = true ∧
+    endsDot ".".toList = true ∧ endsDot "d/./e".toList = false ∧ endsDot "d/..".toList = false ∧
+    endsDot "d/.x".toList = false ∧ plain "d/./e".toList = true ∧ plain "d/.".toList = false ∧
+    lexicalOK "./.".toList = true ∧ lexicalOK "d/.".toList = false := by decide
+/-- `g` is a file: `g/.` names nothing, every procedure reports failure, nothing changes -/
+example : existsS demoTree2 "g/.".toList = false ∧ isFileS demoTree2 "g/.".toList = false ∧
+    isDirS demoTree2 "g/.".toList = false ∧ fileRead demoTree2 "g/.".toList = none ∧
+    (fileAppend demoTree2 "g/.".toList ['X']).2 = false ∧ (fileOverwrite demoTree2 "g/.".toList ['X']).2 = false ∧
+    (fileRemove demoTree2 "g/.".toList).2 = false ∧ (fileCreate demoTree2 "g/.".toList).2 = false ∧
+    (dirCreate demoTree2 "g/.".toList).2 = false ∧ dirRead demoTree2 "g/.".toList = none ∧
+    (dirRemove demoTree2 "g/.".toList).2 = false ∧ (dirRemoveAll demoTree2 "g/.".toList).2 = false ∧
+    paths (dirRemoveAll demoTree2 "g/.".toList).1 = paths demoTree2 ∧
+    (dirCreateAll demoTree2 "g/.".toList).2 = false := by decide
+/-- `d` is a directory: `d/.` is `d`, as a directory -/
+example : existsS demoTree2 "d/.".toList = true ∧ isFileS demoTree2 "d/.".toList = false ∧
+    isDirS demoTree2 "d/.".toList = true ∧ fileRead demoTree2 "d/.".toList = none ∧
+    (fileCreate demoTree2 "d/.".toList).2 = false ∧ (fileRemove demoTree2 "d/.".toList).2 = false ∧
+    (dirCreate demoTree2 "d/.".toList).2 = false ∧ (dirCreateAll demoTree2 "d/e/.".toList).2 = true ∧
+    dirRead demoTree2 "d/.".toList = some ["d/./e".toList, "d/./f".toList] ∧
+    dirRead demoTree2 "d/./".toList = some ["d/./e".toList, "d/./f".toList] := by decide
+/-- `rmdir("k/.")` is `EINVAL`; `remove_dir_all("d/.")` empties `d`, then fails: `d` stays *(run)* -/
+example : (dirRemove demoTree2 "k/.".toList).2 = false ∧ (dirRemove demoTree2 "k/./".toList).2 = false ∧
+    (dirRemove demoTree2 "k".toList).2 = true ∧
+    (dirRemoveAll demoTree2 "d/.".toList).2 = false ∧
+    paths (dirRemoveAll demoTree2 "d/.".toList).1 = ["d".toList, "g".toList, "k".toList] := by decide
+/-- … unless the string went through a directory below: `d/e/../.` no longer resolves, success *(run)* -/
+example : (dirRemoveAll demoTree2 "d/e/../.".toList).2 = true ∧
+    paths (dirRemoveAll demoTree2 "d/e/../.".toList).1 = ["d".toList, "g".toList, "k".toList] ∧
+    (dirRemoveAll demoTree2 "d/../.".toList).2 = true ∧ paths (dirRemoveAll demoTree2 "d/../.".toList).1 = [] := by
+  decide
+/-- a missing name: `new/.` names nothing, and nothing is made — not by DIRECTORY_CREATE, and not by
+DIRECTORY_CREATE_ALL either, which makes every directory on the way but the last *(run)* -/
+theorem createAll_final_dot : existsS demoTree2 "new/.".toList = false ∧ (fileCreate demoTree2 "new/.".toList).2 = false ∧
+    (dirCreate demoTree2 "new/.".toList).2 = false ∧
+    (dirCreateAll demoTree2 "new/.".toList).2 = false ∧
+    paths (dirCreateAll demoTree2 "new/.".toList).1 = paths demoTree2 ∧
+    (dirCreateAll demoTree2 "d/new/.".toList).2 = false ∧
+    (dirCreateAll demoTree2 "n1/n2/.".toList).2 = false ∧
+    paths (dirCreateAll demoTree2 "n1/n2/.".toList).1 = "n1".toList :: paths demoTree2 ∧
+    (dirCreateAll demoTree2 "m1/m2/m3/.".toList).2 = false ∧
+    paths (dirCreateAll demoTree2 "m1/m2/m3/.".toList).1 = ["m1/m2".toList, "m1".toList] ++ paths demoTree2 := by
+  decide
+/-- with `..`: `q/../g/.` makes `q` and fails on the file `g`; `r/../k/.` makes `r` and succeeds (`k` is
+there); `w/../w/.` makes `w` and finds it; `z/y/../.` ends in `..` before the `.`: everything is made *(run)* -/
+example : (dirCreateAll demoTree2 "q/../g/.".toList).2 = false ∧
+    paths (dirCreateAll demoTree2 "q/../g/.".toList).1 = "q".toList :: paths demoTree2 ∧
+    (dirCreateAll demoTree2 "r/../k/.".toList).2 = true ∧
+    paths (dirCreateAll demoTree2 "r/../k/.".toList).1 = "r".toList :: paths demoTree2 ∧
+    (dirCreateAll demoTree2 "w/../w/.".toList).2 = true ∧
+    paths (dirCreateAll demoTree2 "w/../w/.".toList).1 = "w".toList :: paths demoTree2 ∧
+    (dirCreateAll demoTree2 "z/y/../.".toList).2 = true ∧
+    paths (dirCreateAll demoTree2 "z/y/../.".toList).1 = ["z/y".toList, "z".toList] ++ paths demoTree2 ∧
+    (dirCreateAll demoTree2 "./.".toList).2 = true ∧ (dirCreate demoTree2 "./.".toList).2 = false ∧
+    existsS demoTree2 "./.".toList = true := by decide
 
 /-! the round trip theorem applies: `d` is a directory directly below the root -/
 example : fileRead demoTree2 (upFrom "d".toList "g".toList) = fileRead demoTree2 "g".toList :=
